@@ -41,7 +41,8 @@ def id_schema(exprs):
     fields = [gql.FieldDef("i%d" % k, t) for k, t in enumerate(exprs)]
     return gql.Schema([
         gql.iface("Node", [("s", "String")]),
-        gql.obj("T", fields + [gql.FieldDef("s", "String"), gql.FieldDef("n", "Int")], ["Node"]),
+        # `id` is NOT of type ID and `name`-like fields are: the coercion follows the type, never the name
+        gql.obj("T", fields + [gql.FieldDef("s", "String"), gql.FieldDef("n", "Int"), gql.FieldDef("id", "String"), gql.FieldDef("ID", "Int")], ["Node"]),
         gql.obj("Other", [("s", "String")], ["Node"]),
         gql.obj("Q", [("t", "T"), ("node", "Node")]),
     ], {"query": "Q"})
@@ -55,17 +56,17 @@ CVARS = [("c", "Boolean!", None)]
 def op_for(position, k):
     f = "i%d" % k
     if position == "plain":
-        return Doc([Op("query", "Op", [Field("t", [Field(f), Field("s")])])]), ["t"], f
+        return Doc([Op("query", "Op", [Field("t", [Field(f), Field("s"), Field("id")])])]), ["t"], f
     if position == "alias":
-        return Doc([Op("query", "Op", [Field("t", [Field(f, alias="a"), Field("s")])])]), ["t"], "a"
+        return Doc([Op("query", "Op", [Field("t", [Field(f, alias="a"), Field("s"), Field("id")])])]), ["t"], "a"
     if position == "spread":
-        return Doc([FragDef("F", "T", [Field(f)]), Op("query", "Op", [Field("t", [Field("s"), Spread("F")])])]), ["t"], f
+        return Doc([FragDef("F", "T", [Field(f)]), Op("query", "Op", [Field("t", [Field("s"), Field("id"), Spread("F")])])]), ["t"], f
     if position == "conditional":
         # the field carries @include: the server may leave it out, so the Rust field is optional whatever the schema says
-        return Doc([Op("query", "Op", [Field("t", [Field(f, directives=COND), Field("s")])], CVARS)]), ["t"], f
+        return Doc([Op("query", "Op", [Field("t", [Field(f, directives=COND), Field("s"), Field("id")])], CVARS)]), ["t"], f
     if position == "conditional_variant":
-        return Doc([Op("query", "Op", [Field("node", [TN(), Inline("T", [Field(f, directives=COND), Field("n")])])], CVARS)]), ["node"], f
-    return Doc([Op("query", "Op", [Field("node", [TN(), Inline("T", [Field(f), Field("n")])])])]), ["node"], f
+        return Doc([Op("query", "Op", [Field("node", [TN(), Inline("T", [Field(f, directives=COND), Field("n"), Field("ID")])])], CVARS)]), ["node"], f
+    return Doc([Op("query", "Op", [Field("node", [TN(), Inline("T", [Field(f), Field("n"), Field("ID")])])])]), ["node"], f
 
 
 def value_of(t, leaf, null_at=None, level=0):
